@@ -6,8 +6,8 @@ props.py — per-property configuration of the check driver: proof modules, theo
 PROPS = {}
 
 PROPS["C05"] = dict(
-    modules=["Proofs.C05", "Proofs.C05Trans"],
-    theorems=["Goflow.C05Trans.decodeMessage_trans_eq", "Goflow.C05Trans.decodeMessageVersion_trans_eq", "Goflow.C05.header_roundtrip", "Goflow.C05.record_roundtrip", "Goflow.C05.roundtrip",
+    modules=["Proofs.C05", "Proofs.C05Trans", "Proofs.RawJson"],
+    theorems=["Goflow.RawJson.raw_json_member_names", "Goflow.RawJson.raw_json_marshalers", "Goflow.C05Trans.decodeMessage_trans_eq", "Goflow.C05Trans.decodeMessageVersion_trans_eq", "Goflow.C05.header_roundtrip", "Goflow.C05.record_roundtrip", "Goflow.C05.roundtrip",
               "Goflow.C05.truncation", "Goflow.C05.records_le_present", "Goflow.C05.layout_matches"],
     generators=[dict(name="C05", quick=3000, thorough=200000)],
     harness=["impl"],
@@ -16,16 +16,16 @@ PROPS["C05"] = dict(
 )
 
 PROPS["C03"] = dict(
-    modules=["Proofs.C03", "Proofs.C03Trans"],
-    theorems=['Goflow.C03Trans.getTemplateSize_eq', 'Goflow.C03.field_roundtrip', 'Goflow.C03.optionField_roundtrip', 'Goflow.C03.templateSet_roundtrip', 'Goflow.C03.optionsTemplateSet_roundtrip_v9', 'Goflow.C03.optionsTemplateSet_roundtrip_ipfix', 'Goflow.C03.record_roundtrip', 'Goflow.C03.encRecord_length_ge', 'Goflow.C03.dataSet_roundtrip', 'Goflow.C03.optionsDataSet_roundtrip', 'Goflow.C03.flowSet_roundtrip', 'Goflow.C03.messageCommon_roundtrip', 'Goflow.C03.roundtrip'],
+    modules=["Proofs.C03", "Proofs.C03Trans", "Proofs.RawJson"],
+    theorems=["Goflow.RawJson.raw_json_member_names", "Goflow.RawJson.raw_json_marshalers", 'Goflow.C03Trans.getTemplateSize_eq', 'Goflow.C03.field_roundtrip', 'Goflow.C03.optionField_roundtrip', 'Goflow.C03.templateSet_roundtrip', 'Goflow.C03.optionsTemplateSet_roundtrip_v9', 'Goflow.C03.optionsTemplateSet_roundtrip_ipfix', 'Goflow.C03.record_roundtrip', 'Goflow.C03.encRecord_length_ge', 'Goflow.C03.dataSet_roundtrip', 'Goflow.C03.optionsDataSet_roundtrip', 'Goflow.C03.flowSet_roundtrip', 'Goflow.C03.messageCommon_roundtrip', 'Goflow.C03.roundtrip'],
     generators=[dict(name="C03", quick=4000, thorough=100000)],
     harness=["impl"],
     level_text="Theorem roundtrip: decode (encode m) = m for every well-formed NetFlow v9 / IPFIX message against an RFC encoder (template store update, padding, enterprise bit, variable length), plus the differential run of the encoder's output through the Go decoder. GetTemplateSize is translated from the source and proved equal to the model's templateSize (C03Trans).",
 )
 
 PROPS["C04"] = dict(
-    modules=["Proofs.C04", "Proofs.C04Roundtrip", "Proofs.C04Trans"],
-    theorems=['Goflow.C04Trans.decodeIP_trans_eq', 'Goflow.C04.xdrString_roundtrip', 'Goflow.C04.ip_roundtrip', 'Goflow.C04.unknown_record_skipped', 'Goflow.C04.unknown_flow_record',
+    modules=["Proofs.C04", "Proofs.C04Roundtrip", "Proofs.C04Trans", "Proofs.RawJson"],
+    theorems=["Goflow.RawJson.raw_json_member_names", "Goflow.RawJson.raw_json_marshalers", 'Goflow.C04Trans.decodeIP_trans_eq', 'Goflow.C04.xdrString_roundtrip', 'Goflow.C04.ip_roundtrip', 'Goflow.C04.unknown_record_skipped', 'Goflow.C04.unknown_flow_record',
               'Goflow.C04.flowRecord_roundtrip', 'Goflow.C04.counterRecord_roundtrip', 'Goflow.C04.sample_roundtrip', 'Goflow.C04.roundtrip', 'Goflow.C04.exampleDatagram_wf'],
     generators=[dict(name="C04", quick=4000, thorough=150000)],
     harness=["impl"],
